@@ -20,6 +20,13 @@ mod ops_anchors;
 // (signature: fn(op: &str, args: &[String]) -> Option<String>; None = not mine)
 
 pub const COMPONENTS: &[fn(&str, &[String]) -> Option<String>] = &[ops_anchors::dispatch];
+mod ops_arena;
+// component op modules: add `mod ops_<name>;` here and its dispatch function to COMPONENTS
+// (signature: fn(op: &str, args: &[String]) -> Option<String>; None = not mine)
+
+pub const COMPONENTS: &[fn(&str, &[String]) -> Option<String>] = &[
+    ops_arena::dispatch,
+];
 
 #[allow(dead_code)]
 pub fn unhex(s: &str) -> Vec<u8> {
